@@ -12,7 +12,8 @@
    | `kernel <wire>`                                     (no real kernel given) the model's kernel
    | `refuse <why>` | `unmodelled <why>`
   followed, for `same` / `differ` / `kernel`, by TAB `#check yes|no` (the model kernel passes `checkKernel`)
-  TAB `#fragment yes|no <reasons>` (the graph is inside the fragment of `loopygen_sound_partial`).
+  TAB `#fragment yes|no <reasons>` (the graph is inside the fragment of `loopygen_sound_partial` /
+  `loopygen_checks_partial`) TAB `#fragmentR yes|no <reasons>` (… of `loopygen_sound_red_partial`).
 -/
 import PtModel.Sexp
 import PtModel.HandleKernel
@@ -70,7 +71,12 @@ def handleLoopyGen : List Sx → Option String
       let frag :=
         if LG.fragmentCheck g.toArray && os.all (fun o => decide (o.2 < g.length)) then "yes"
         else "no " ++ ",".intercalate (LG.outsideFragment g.toArray)
-      let chk := "\t#check " ++ (if checkKernel k then "yes" else "no") ++ "\t#fragment " ++ frag
+      -- … and inside the larger fragment of the soundness theorem with reductions (`PtProofs.C01GenRed`)?
+      let fragR :=
+        if LG.fragmentCheckR g.toArray && os.all (fun o => decide (o.2 < g.length)) then "yes"
+        else "no " ++ ",".intercalate (LG.outsideFragmentR g.toArray)
+      let chk := "\t#check " ++ (if checkKernel k then "yes" else "no") ++ "\t#fragment " ++ frag ++
+        "\t#fragmentR " ++ fragR
       match real with
       | .atom "#none" => some ("kernel " ++ (Sx.list (k.map KStmt.toSx)).toStr ++ chk)
       | r => do
